@@ -255,7 +255,9 @@ func c09Final(e *driver.Env) {
 		if s.Err != nil {
 			var ids []int
 			for _, o := range s.Err.Got {
-				ids = append(ids, errID(o.V))
+				if id := errID(o.V); !s.afterCancelNote(id, o.Seq) {
+					ids = append(ids, id)
+				}
 			}
 			if !sameMultiset(ids, s.M.Errs) {
 				e.Failf("C09.b", "delivered errors differ from one per failing element",
